@@ -1283,10 +1283,10 @@ impl Actor {
                 };
 
                 // An activated deal that has not started yet has nothing to settle. Leave it
-                // untouched: its proposal must stay pending until the deal is first processed at
-                // or after its start epoch, otherwise the same signed proposal could be published
-                // again.
-                if curr_epoch < deal_proposal.start_epoch {
+                // untouched: its proposal must stay pending for as long as it could still be
+                // published (through its start epoch), otherwise the same signed proposal could be
+                // published again.
+                if curr_epoch <= deal_proposal.start_epoch {
                     settlements.push(DealSettlementSummary {
                         completed: false,
                         payment: TokenAmount::zero(),
